@@ -652,6 +652,7 @@ Fixpoint evals_with (ev : expr -> env -> world -> res (val * world)) (l : list e
   match l with [] => Ok ([], w) | x :: r => do vw <- ev x ρ w; do rw <- evals_with ev r ρ (snd vw); Ok (fst vw :: fst rw, snd rw) end.
 (* one statement, given the evaluators of the enclosing fuel level *)
 Definition exec_stmt (tl : string -> string -> option oracle)
+           (runm : string -> string -> option (val -> list val -> world -> res (val * world)))   (* run a method body, return the FINAL receiver *)
            (ev : expr -> env -> world -> res (val * world))
            (evs : list expr -> env -> world -> res (list val * world))
            (ex : list stmt -> env -> world -> res (outcome * world)) (fu : nat)
@@ -685,6 +686,17 @@ Definition exec_stmt (tl : string -> string -> option oracle)
   | SExpr (ECall (EAttr (EName _) "__init__") (EName sname :: _) _ as e) =>
       (* Base.__init__(self, ...): the (functional) constructor result is written back to self *)
       do vw <- ev e ρ w; norm (assign_ (EName sname) (fst vw) ρ (snd vw))
+  | SExpr (ECall (EAttr (EName x) m) args []) =>
+      (* x.m(args) as a statement, x a local holding an object, m a method of this program that ends without `return`:
+         Python mutates the receiver in place - the receiver as it is when the body ends is written back to x *)
+      match lookup x ρ with
+      | Some (VObj cls fs) =>
+          match runm cls m with
+          | Some r => do aw <- evs args ρ w; do sw <- r (VObj cls fs) (fst aw) (snd aw); Ok (ONormal (update x (fst sw) ρ), snd sw)
+          | None => do vw <- ev (ECall (EAttr (EName x) m) args []) ρ w; Ok (ONormal ρ, snd vw)
+          end
+      | _ => do vw <- ev (ECall (EAttr (EName x) m) args []) ρ w; Ok (ONormal ρ, snd vw)
+      end
   | SExpr e => do vw <- ev e ρ w; Ok (ONormal ρ, snd vw)
   | SIf c t e => do cw <- ev c ρ w; do b <- m_truthy (fst cw) (snd cw); ex (if fst b then t else e) ρ (snd b)
   | SFor t it body =>
@@ -911,6 +923,22 @@ with call (fuel : nat) (c : callee) (self : option val) (args : list val) (kws :
 with exec (fuel : nat) (ss : list stmt) (ρ : env) (w : world) {struct fuel} : res (outcome * world) :=
   match fuel with O => Stuck "fuel" | S f =>
     run_stmts (exec_stmt (fun cls m => match methods G cls m with Some (CTail o) => Some o | _ => None end)
+                         (fun cls m => match methods G cls m with
+                                       | Some (CFun fd) =>
+                                           if f_static fd then None else
+                                           Some (fun self args w =>
+                                                   do b <- bind_params (f_params fd) (self :: args) [] (fun de => do r <- eval f de [] w; Ok (fst r));
+                                                   do ρ0 <- match snd b, f_kwarg fd with
+                                                            | [], None => Ok (fst b)
+                                                            | rest, Some k => Ok ((fst b ++ [(k, kw_dict rest)])%list)
+                                                            | _ :: _, None => Exc "TypeError" end;
+                                                   do ow <- exec f (f_body fd) ρ0 w;
+                                                   match fst ow with
+                                                   | ONormal ρ' => Ok (match lookup "self" ρ' with Some o => o | None => self end, snd ow)
+                                                   | OReturn _ => Ok (self, snd ow)      (* a `return` loses the callee's environment: no write-back *)
+                                                   | OTail o targs tkws => do r <- o targs tkws (snd ow); Ok (self, snd r)
+                                                   end)
+                                       | _ => None end)
                          (eval f)
                          (evals_with (eval f))
                          (exec f) f) ss ρ w end.
